@@ -159,13 +159,16 @@ func (c *Ctx) fnName(f *ssa.Function) string {
 		return "<nil>"
 	}
 	s := f.String()
+	if len(typeRenames) > 0 {
+		s = normTypeNames(s)
+	}
 	if len(fnAlias) > 0 {
 		root := f
 		for root.Parent() != nil {
 			root = root.Parent()
 		}
 		if old, ok := fnAlias[root]; ok {
-			rs := root.String()
+			rs := normTypeNames(root.String())
 			if strings.HasSuffix(rs, "."+root.Name()) {
 				s = rs[:len(rs)-len(root.Name())] + old + strings.TrimPrefix(s, rs)
 			}
@@ -188,8 +191,22 @@ func (c *Ctx) Fn(name string) *ssa.Function {
 	return f
 }
 
-// FnOpt returns the named repo function or nil without complaint.
-func (c *Ctx) FnOpt(name string) *ssa.Function { return c.fnByName[name] }
+// FnOpt returns the named repo function or nil without complaint. The name may be the function's anchor name (its old
+// name, if it was renamed) or the name it has in the analysed tree (as read from the syntax tree).
+func (c *Ctx) FnOpt(name string) *ssa.Function {
+	if f := c.fnByName[name]; f != nil {
+		return f
+	}
+	if len(fnAlias) > 0 {
+		for f, old := range fnAlias {
+			cur := c.fnName(f)
+			if strings.HasSuffix(cur, "."+old) && cur[:len(cur)-len(old)]+f.Name() == name {
+				return f
+			}
+		}
+	}
+	return nil
+}
 
 func (c *Ctx) unresolved(what string) {
 	c.add(&Obligation{Rule: c.Property + ".anchor", Key: "anchor:" + what, Verdict: "undecided",
